@@ -204,7 +204,9 @@ def check_grad(case, ctx):
             continue
         auto = float(sum((g * x).sum() for g, x in zip(grads, d)))
         used += 1
-        tol = rel * max(abs(auto), abs(f2)) + 1e-9
+        # (quadratic CVaR: the error left by its bisection scales with the sensitivity of the whole sample, i.e. with the gradient norm,
+        # not with this particular directional derivative, which may be far smaller)
+        tol = rel * max(abs(auto), abs(f2), gnorm if c["kind"] == "qcvar" else 0.0) + 1e-9
         if not ctx.check(abs(auto - f2) <= tol, "C14/gradient",
                          f"{c['kind']}: autograd directional derivative {auto!r} vs finite differences {f2!r} "
                          f"(|diff| {abs(auto - f2):.3e} > {tol:.3e})", model=case["model"], inputs=case["inputs"]):
@@ -245,6 +247,18 @@ def check_nograd(case, ctx):
     hedger.train(case.get("mode", "train") == "train")
     has_params = any(p.requires_grad for p in hedger.parameters())
     n, k = case["n_paths"], case["n_times"]
+    torch.manual_seed(case["sim_seed"])
+    # a non-finite P&L sample (a NaN hedge on a zero-variance step - known findings K3 / K3-hedger of C18) is accepted by no criterion
+    torch.manual_seed(case["sim_seed"])
+    with torch.no_grad():
+        with ctx.sut("C14/evaluation-only/simulate"):
+            finite = True
+            for _ in range(4 * k):  # the batches the four calls below will draw
+                deriv.simulate(n_paths=n)
+                finite = finite and bool(torch.isfinite(hedger.compute_portfolio(deriv, hedge=hedge) - deriv.payoff()).all())
+    if not finite:
+        ctx.cls("skipped:non-finite-sample")
+        return
     torch.manual_seed(case["sim_seed"])
     kw0 = {}
     if case.get("init_grad"):
